@@ -22,6 +22,12 @@ CHECKS = {
         note="Trusted: z3, CPython, forksym proxies; the file is an uninterpreted array (reads return (offset,length) slices; no short reads). "
              "Family 'data': all numbers unbounded, <=2/<=3 range specs, chunk loops unwound K=3/4 with unwinding assertion. Family 'framing': "
              "multipart Content-Length digit-exact for sizes <10^4 / <10^6. Every path's model is re-run on a real temp file with the unshimmed code."),
+    "C05": dict(
+        technique="fork-on-branch symbolic execution of every response class on both interfaces against a scripted server with a protocol monitor: status, header/cookie/body/download-name characters and the FAULT POINT (failing send call, raising producer step, early close) are solver variables",
+        design_ref="DESIGN.md §4 C05",
+        note="Trusted: z3, CPython/asyncio (streaming classes on the virtual loop), forksym/ReShim, the protocol monitor in harness/gw.py. Constructor "
+             "header values are assumed printable Latin-1, cookie values Latin-1; download names and redirect targets full Unicode (no lone surrogates). "
+             "Texts <=2/<=3 chars, streams <=2/<=3 items. WSGI SendEventResponse only for complete runs (threads: see C06)."),
     "C06": dict(
         technique="fork-on-branch symbolic execution of the real ASGI streaming responses on a virtual-time asyncio loop: producer/send delays, ping interval and disconnect instant are z3 integers, timer order decided by the solver; sequential WSGI streaming with symbolic close/raise points",
         design_ref="DESIGN.md §4 C06",
